@@ -1181,8 +1181,21 @@ Q_SETTERS = {
     "general": [], "3gpp1": [],
     "free_space": [("fc", 2400.0), ("n", 3.5)],
     "metis_ps7": [("fc", 5000.0)],
-    "okumura_hata": [("fc", 1500.0), ("area_type", "open")],
+    "okumura_hata": [("fc", 1500.0), ("area_type", "open"), ("hbs", 200.0), ("hms", 10.0)],
 }
+CLONE_KINDS = ("copy", "deepcopy", "pickle")
+
+
+def clone_of(obj, how):
+    import copy
+    import pickle
+    if how == "copy":
+        return copy.copy(obj)
+    if how == "deepcopy":
+        return copy.deepcopy(obj)
+    return pickle.loads(pickle.dumps(obj))
+
+
 Q_INITS = {
     "general": [(("n", 2), ("C", 20.0)), (("n", 3.76), ("C", 128.1))],
     "3gpp1": [()],
@@ -1210,6 +1223,9 @@ def q_alphabet(fam):
     ev.append(("mutate", "result"))
     ev += [("handle_small_distances_bool", True), ("handle_small_distances_bool", False)]
     ev += Q_SETTERS[fam]
+    # the object is replaced by a clone of itself (always the last event of a history: the observation after the
+    # history then judges the CLONE in every relation, and the original next to it)
+    ev += [("clone", how) for how in CLONE_KINDS]
     inits = [(("new", a + (("hsd0", h),)),) for a in Q_INITS[fam] for h in (False, True)]
     return inits, ev
 
@@ -1237,6 +1253,8 @@ class QState:
         self.bytes = {}
         self.last_result = None
         self.last = None          # record of the last query event
+        self.original = None      # the object a clone was taken from
+        self.clone_note = None
 
 
 def q_expected(fam, model, hsd, kind, values):
@@ -1327,6 +1345,14 @@ def build_q(fam, hist):
                 st.last_result = r if isinstance(r, np.ndarray) else None
             rec["inputs_intact"] = all(st.arrays[k].tobytes() == st.bytes[k] for k in st.arrays)
             st.last = rec
+        elif ev[0] == "clone":
+            try:
+                c = clone_of(st.obj, ev[1])
+            except Exception as e:  # noqa - cloning is not part of the property: unavailable = outcome only
+                st.clone_note = (ev[1], "unavailable:" + type(e).__name__)
+                continue
+            st.clone_note = (ev[1], "cloned")
+            st.original, st.obj = st.obj, c
         elif ev[0] == "mutate":
             if st.last_result is not None and st.last_result.flags.writeable:
                 st.last_result[...] = -3.25         # the caller scribbles over the array it was given
@@ -1390,11 +1416,20 @@ def check_query_state(chk, fam, hist, st):
     # ---- observation after the history, same array objects, against closed form and a fresh object ----
     fresh = F["fresh"](st.model)
     fresh.handle_small_distances_bool = st.hsd
-    for kind, arr in q_kinds(fam):
+    if st.clone_note is not None:
+        chk.outcome("clone", (fam, st.hsd) + st.clone_note)
+        chk.count("eval_clones")
+    objs = [("", st.obj)]
+    if st.original is not None:
+        objs.append(("original_next_to_its_clone ", st.original))      # clone first, then the original again
+    for who, the_obj in objs:
+      st_obj_saved, st.obj = st.obj, the_obj
+      for kind, arr in q_kinds(fam):
         tag, r, x = q_do(st, kind, arr)
         got = q_result(tag, r)
         exp = q_expected(fam, st.model, st.hsd, kind, q_values(arr))
-        _cmp_query(chk, fam, case, "observation_after_history_%s" % arr, kind, got, exp, cf_tol)
+        _cmp_query(chk, fam, case, who + ("clone_" if st.original is not None and not who else "")
+                   + "observation_after_history_%s" % arr, kind, got, exp, cf_tol)
         try:
             gf = q_result(None, getattr(fresh, Q_METHOD[kind])(np.array(x, dtype=float) if np.ndim(x) else x))
         except Exception as e:  # noqa
@@ -1402,7 +1437,8 @@ def check_query_state(chk, fam, hist, st):
         chk.count("eval_differential")
         if not _same(got, gf, 1e-12):
             chk.fail((SITE[fam], "query_history", "differs_from_fresh_object"), case,
-                     observed="%s %s: %r" % (kind, arr, _short(got)), expected=_short(gf))
+                     observed="%s%s %s: %r" % (who, kind, arr, _short(got)), expected=_short(gf))
+      st.obj = st_obj_saved
     if any(st.arrays[k].tobytes() != st.bytes[k] for k in st.arrays):
         chk.fail((SITE[fam], "query_history", "input_array_not_bit_identical_after_call"), case,
                  observed="observation after the history")
@@ -1431,6 +1467,8 @@ def run_query_family(chk, fam, depth):
             # last level: the observation after the history already queries every entry point, so only the
             # events that change something (setters, policy, caller scribbling) are worth a node of their own
             ok = [e for e in ok if e[0] != "query"]
+        if hist and hist[-1][0] == "clone":
+            return []          # a clone closes the history
         return ok
 
     def invariant(hist, st):
@@ -1563,6 +1601,7 @@ def main(chk: Check):
         chk.require_outcomes("presentation", 200)
         chk.require_outcomes("wall_broadcast", 30)
         chk.require_outcomes("layout_x_policy", 40)
+        chk.require_outcomes("clone", 12)
         chk.require_outcomes("query_outcome", 30)
 
 
